@@ -238,3 +238,65 @@ def sort_key_agreement_rule(crate, prop, rule="C05.R8"):
         r.fail(prop, "anchor-missing ordering comparison", "merge() has no string ordering comparison (declarations must be placed in name order)")
     r.floor = 1
     return r
+
+
+def import_union_rule(crate, prop, rule="C05.R10"):
+    """the header of a shared file imports what *either* side imports: per module path the names are unioned"""
+    r = Result(rule, "in merge() the per-path import table (a map from module path to a set of names) only ever accumulates: it is filled through `entry(path).or_default()` followed by insertion into the set, never by collecting/inserting whole sets under a path (a repeated path - the file's header and the new type both importing from one module - would replace the earlier names)")
+    mg = crate.body("export::merge")
+    if mg is None:
+        r.fail(prop, "anchor-missing export::merge", "not found")
+        return r
+    MAPOFSETS = r"(collections::(BTreeMap|HashMap)|_map::Entry)<[^<>]*, std::(collections::(BTreeSet|HashSet)|vec::Vec)<"
+    acc = 0
+    bodies = [b for b in crate.bodies if b.path == "export::merge" or b.path.startswith("export::merge::")]
+    for b in bodies:
+        for blk, t in b.calls():
+            if b.is_cleanup(blk):
+                continue
+            tys = " ".join([t.get("dst_ty") or ""] + (t.get("arg_tys") or []))
+            if not re.search(MAPOFSETS, tys):
+                continue
+            f, l = M.user_span(t["span"])
+            p = t["fn"]["path"] if t.get("fn") else "?"
+            if re.search(r"<[^<>]*, std::vec::Vec<", tys) and fn_matches(t, r"::entry$"):
+                r.fail(prop, "import-names-in-arrival-order export::merge",
+                       "the names imported from one module are kept in a Vec: inside `import type { .. }` they appear in the order in which the types reached the file, which depends on the export schedule",
+                       f, l)
+            if fn_matches(t, r"::entry$"):
+                acc += 1
+                r.inst(fn=b.path, op="entry", where="%s:%s" % (f, l), accumulates=True)
+            elif fn_matches(t, r"Entry::<.*>::(or_default|or_insert_with|or_insert)$"):
+                r.inst(fn=b.path, op=p.split("::")[-1], where="%s:%s" % (f, l), accumulates=True)
+            elif fn_matches(t, r"Iterator::collect$", r"FromIterator", r"iter::Extend::extend$", r"collections::(BTreeMap|HashMap)::<K, V(, S)?(, A)?>::insert$", r"Iterator::(unzip|try_collect)$"):
+                r.inst(fn=b.path, op=p.split("::")[-1], where="%s:%s" % (f, l), accumulates=False)
+                r.fail(prop, "import-table-replaces-repeated-path export::merge",
+                       "%s builds the path -> names table by replacing the entry of a repeated path: when the file's header and the incoming type import from the same module, the names of one side are dropped and the file depends on the export order" % p.split("::", 2)[-1],
+                       f, l)
+    if not acc and not r.findings:
+        r.fail(prop, "anchor-missing import table", "no map from path to a set of names is accumulated in merge()", mg.file(), mg.line())
+    r.floor = 2
+    return r
+
+
+def merge_verbatim_rule(crate, prop, rule="C05.R11"):
+    """merge() cuts its two inputs into slices and appends slices to the output: it never rewrites text"""
+    r = Result(rule, "merge() and its closures contain no text-rewriting operation (replace, replacen, case conversion, repeat, escaping): what is already in the file and what the new type contributes are carried over byte for byte, so the blank-line and comment guarantees established when the text was produced still hold after the merge")
+    REWRITERS = r"str::<impl str>::(replace|replacen|to_lowercase|to_uppercase|to_ascii_lowercase|to_ascii_uppercase|repeat|escape_\w+)$|String::replace_range$"
+    bodies = [b for b in crate.bodies if b.path == "export::merge" or b.path.startswith("export::merge::")]
+    if not bodies:
+        r.fail(prop, "anchor-missing export::merge", "not found")
+        return r
+    n = 0
+    for b in bodies:
+        for blk, t in b.calls():
+            if b.is_cleanup(blk) or not t.get("fn"):
+                continue
+            n += 1
+            if fn_matches(t, REWRITERS):
+                f, l = M.user_span(t["span"])
+                r.fail(prop, "merge-rewrites-text %s" % t["fn"]["path"].split("::")[-1],
+                       "%s in %s: text that was produced free of blank lines (doc comments) or with a fixed layout is altered while the file is merged, e.g. `\\r\\n\\r\\n` inside a doc comment becomes an empty line and the comment is split" % (t["fn"]["path"], b.path), f, l)
+    r.inst(fn="export::merge", bodies=len(bodies), calls_examined=n, rewriting_calls=len(r.findings))
+    r.floor = 1
+    return r
